@@ -92,7 +92,7 @@ def _keyword(rng, limit, taken, near=None):
             return w
 
 
-PROFILES = ["one", "pow2", "pow2_single", "boundary", "many_small", "mixed", "shared_ids", "big_list"]
+PROFILES = ["one", "pow2", "pow2_single", "boundary", "many_small", "mixed", "shared_ids", "big_list", "long_keywords"]
 
 
 def capacity(name, cfg):
@@ -129,6 +129,8 @@ def gen_db(name, cfg, rng, profile, scale=1):
         lens = [rng.randint(1, 4) for _ in range(rng.randint(2, 6))]
     elif profile == "big_list":
         lens = [rng.randint(9, 30 * scale)] + [rng.randint(1, 3) for _ in range(rng.randint(0, 3))]
+    elif profile == "long_keywords":
+        lens = [rng.randint(1, 5) for _ in range(rng.randint(1, 4))]
     else:
         lens = [rng.randint(1, 12 * scale) for _ in range(rng.randint(1, 6))]
     lens = [min(l, maxL, 255 ** min(ids, 2)) for l in lens][:maxK]
@@ -139,6 +141,9 @@ def gen_db(name, cfg, rng, profile, scale=1):
     used = set()
     for l in lens:
         w = _keyword(rng, limit, db)
+        if profile == "long_keywords" and limit >= 40:
+            # keywords longer than a hash block (the schemes built on HMAC set no limit)
+            w = bytes([rng.randint(1, 255)]) + bytes(rng.getrandbits(8) for _ in range(rng.randint(64, 90)))
         if profile == "shared_ids":
             while len(pool) < l:
                 pool.append(_ident(rng, ids, used))
@@ -151,17 +156,19 @@ def gen_db(name, cfg, rng, profile, scale=1):
 
 def absent_keywords(rng, name, cfg, db, n=3):
     """keywords not in the database, adversarially close to stored ones"""
+    import hashlib
     limit = kw_limit(name, cfg)
-    out = []
     keys = list(db)
     cands = []
     for w in keys[:3]:
         cands += [w[:-1], w + b"\x00", w + b"x", w[1:], bytes([w[0] ^ 1]) + w[1:], w[:1] + w]
     cands.append(_keyword(rng, limit, db))
-    for c in cands:
+    digests = [hashlib.sha1(w).digest() for w in keys[:2]]          # a digest of a stored keyword
+    out = []
+    rng.shuffle(cands)
+    for c in digests[:1] + cands + digests[1:]:
         if c and c[0] != 0 and len(c) <= limit and c not in db and c not in out:
             out.append(c)
-    rng.shuffle(out)
     return out[:n] if n else out
 
 
@@ -174,8 +181,10 @@ def finalize_cfg(name, cfg, db):
     return cfg
 
 
-def run_real(name, cfg, db, words):
-    """direct oracle on the real code: returns (stage, error-class) or the list of results"""
+def run_real(name, cfg, db, words, history=False):
+    """direct oracle on the real code: returns (stage, error-class) or the list of results.
+    history=True: afterwards, on the SAME scheme object, (a) a second key and a second index of the same database,
+    (b) with the FIRST key, an index of the database without its first keyword — stale per-object / per-process state"""
     ld = loader(name)
     stage = "config"
     try:
@@ -194,7 +203,34 @@ def run_real(name, cfg, db, words):
             res[w] = r.get_result_list() if hasattr(r, "get_result_list") else r.result
         except Exception as e:
             res[w] = ("error", type(e).__name__, str(e)[:100])
-    return {"results": res, "scheme": scheme, "key": key, "edb": edb}
+    out = {"results": res, "scheme": scheme, "key": key, "edb": edb}
+    if history:
+        def one(k, e, w):
+            try:
+                r = scheme.Search(e, scheme.TokenGen(k, w))
+                return r.get_result_list() if hasattr(r, "get_result_list") else r.result
+            except Exception as ex:
+                return ("error", type(ex).__name__, str(ex)[:100])
+        try:
+            key2 = scheme.KeyGen()
+            edb2 = scheme.EDBSetup(key2, db)
+            out["second_key"] = {w: one(key2, edb2, w) for w in db}
+        except Exception as ex:
+            out["second_key"] = {"_setup": ("error", type(ex).__name__, str(ex)[:100])}
+        if len(db) > 1:
+            first = next(iter(db))
+            db3 = {k: v for k, v in db.items() if k != first}
+            try:
+                cfg3 = cfg
+                if name == "SSE2":
+                    cfg3 = None if finalize_cfg(name, cfg, db3) != cfg else cfg
+                if cfg3 is not None:
+                    edb3 = scheme.EDBSetup(key, db3)
+                    out["same_key_subset"] = {"removed": first, "removed_result": one(key, edb3, first),
+                                              "kept": {w: one(key, edb3, w) for w in db3}}
+            except Exception as ex:
+                out["same_key_subset"] = {"removed": first, "removed_result": ("error", type(ex).__name__, str(ex)[:100]), "kept": {}}
+    return out
 
 
 def expected(name, db, w):
